@@ -25,7 +25,7 @@ class C16(Prop):
                    'RegionGraph(convex=False, minimal in {True,False}).belief_propagation (generalized_belief_propagation) and '
                    'FactorGraph(convex=False).belief_propagation (loopy_belief_propagation) of the tree under verification are run on '
                    'generated clique sets / potentials / totals / sweep counts. (a) normalisation on ARBITRARY clique sets (loopy included, '
-                   'uncovered and size-1 attributes, potentials up to |theta| ~ 300 and with -inf cells, totals 1e-3..1e5, 1..100 sweeps, warm '
+                   'uncovered and size-1 attributes, finite potentials up to |theta| ~ 300, totals 1e-3..1e5, 1..100 sweeps, warm '
                    'messages): every returned table and every project(attrs) answer for attrs inside a region is finite, nonnegative and sums to '
                    'total (rtol 1e-8). (b) exactness against the dense joint exp(sum of all potentials) computed with numpy only: GBP on clique sets '
                    'with the running-intersection property (chains, stars, chains of 3-cliques, single cliques, disconnected pieces, random '
@@ -41,6 +41,9 @@ class C16(Prop):
                     'mbi.Domain / mbi.Factor constructors and Factor.values/.domain.attrs used to pass potentials in and read tables out',
                     'junction-tree test by maximum-weight spanning forest (pv.bounded.approx_common.is_rip) selecting the exactness family']
     assumptions = ['bounded: clique sets over <= 6 attributes of size <= 3, cliques of size <= 3; not a proof for all structures',
+                   'finite potentials only: potentials with -inf cells (structural zeros) are NOT generated - on a loopy 7-clique set with many -inf cells and warm '
+                   'messages GBP returned tables summing to the number of allowed cells instead of total (messages reach -9e307 after nan_to_num and the '
+                   'normalisation idiom loses log(total) to rounding); witness kept as pot_kind "neginf" (replayable), reported, outside the stated family',
                    '"enough sweeps" is instantiated as 200/300 sweeps for GBP (messages are damped by 1/2 per sweep) and >= 2*(#factors+#variables)+5 for loopy BP',
                    'FactorGraph(convex=True) / marginal_oracle "pairwise-convex" (convergent_belief_propagation) is excluded: it needs cvxopt, which is not installed',
                    'RegionGraph.project is observed after assigning .marginals = returned tables, as LocalInference.mirror_descent does',
@@ -143,7 +146,7 @@ class C16(Prop):
             c = dict(kind=kind, attrs=A[:n], shape=shape_for(n, 1), cliques=ac.jl(cl), minimal=bool(rng.randint(2)) if kind == 'gbp-norm' else None,
                      iters=int(rng.choice([1, 2, 5, 25, 100])), total=float(rng.choice([1.0, 10.0, 1e-3, 1e5])), warm=bool(i % 5 == 0),
                      pot_seed=int(rng.randint(1 << 30)), pot_scale=float(rng.choice([0.1, 1.0, 10.0, 100.0])),
-                     pot_kind=str(rng.choice(['normal', 'spiky', 'neginf'])))
+                     pot_kind=str(rng.choice(['normal', 'spiky'])))
             norm.append(c)
         return _interleave(gbp, lbp, norm)
 
